@@ -107,7 +107,7 @@ FAMILIES = {
     "C03": "py,pc,cpp", "C19": "py,pc,cpp", "C04": "py,pc",
     "C05": "pc,cpp", "C07": "pc,cpp", "C09": "pc,cpp", "C08": "pc",
     "C14": "prec",
-    "C12": "", "C13": "", "C15": "", "C16": "", "C17": "", "C18": "", "C20": "",
+    "C12": "py,pc,cpp", "C13": "", "C15": "", "C16": "", "C17": "", "C18": "", "C20": "",
 }
 
 
